@@ -303,6 +303,7 @@ type peerDev struct {
 	TokProof  string // "" honest; "empty", "wrong", "for-other-id" (proof computed over another identity than claimed)
 	TokRBEcho string // "" honest; "empty", "wrong"
 	TokTrail  bool   // step 3 carries a trailing byte
+	TokStep1  string // "" honest; "no-eom-then-bad-header": step 1 goes out in a frame that is NOT marked end-of-message, followed by a bare header with an invalid end flag, and the client stops there; "no-eom-then-close": ... followed by a close
 }
 
 type peerOutcome struct {
@@ -705,6 +706,21 @@ func scriptedAKEP2(p *peerConn, dev peerDev, out *peerOutcome) error {
 	m1 = append(m1, idstr(claim)...)
 	m1 = append(append(m1, hp...), 0)
 	m1 = append(m1, raw(ra)...)
+	if dev.TokStep1 != "" {
+		// the whole of step 1 in a frame that does not end the message; then nothing a TOKEN client
+		// would send: no proof is ever presented on this connection
+		if _, err := p.end.Write(refcodec.MkFrame(0, m1)); err != nil {
+			return err
+		}
+		out.MethodRun = "TOKEN"
+		if dev.TokStep1 == "no-eom-then-bad-header" {
+			_, _ = p.end.Write([]byte{0x0b, 0, 0, 0, 0})
+			_, _ = p.recvMsg() // whatever the server says next
+			return fmt.Errorf("scripted client stopped after step 1")
+		}
+		p.end.Close()
+		return fmt.Errorf("scripted client closed after step 1")
+	}
 	if err := p.sendMsg(m1, false); err != nil {
 		return err
 	}
